@@ -241,6 +241,20 @@ CHECKS = {
         'quick': {'shards': 16, 'timeout': 900},
         'thorough': {'shards': 16, 'timeout': 5400},
     },
+    'C18': {
+        'pkg': 'internal/server/usermanager', 'test': 'TestVerif_C18',
+        'parts': [{'pkg': 'internal/server/usermanager', 'test': 'TestVerif_C18'}, {'pkg': 'internal/server', 'test': 'TestVerif_C18Owner', 'shards': 8}],
+        'level': 'exploration',
+        'technique': 'runtime model-based monitoring: reference map compared with the full observable state of the real bbolt-backed admin API after every operation and across close/reopen; porcupine linearizability check of concurrent API clients; every record shape driven through all consumers (and through the panel as a connecting owner) with panics recovered and attributed',
+        'level_text': 'Sequences of 5..60 admin operations over three UIDs (create/update with every subset of the six optional fields and values incl. 0, -1 and the int32/int64 extremes, delete, read, list, UID-mismatching, malformed and undecodable requests, close/reopen at random points) are applied to the real router through httptest; '
+                      'after each operation every user is read back and the list is compared with the reference model (unset fields read as 0 or null); a non-2xx answer must leave the state unchanged. 2..6 concurrent clients are checked by porcupine per UID. '
+                      'All 64 field subsets x value classes are pushed through GetUserInfo, ListAllUsers, AuthenticateUser, AuthoriseNewSession, UploadStatus and, in the server package, through the panel as a connecting owner; any panic is a violation.',
+        'level_note': 'Assumes ' + A_RACE + ', ' + A_HARNESS + ' and porcupine v1.3.0. The model accepts either null or 0 for a field that was never written.',
+        'rule': 'case = one operation sequence / one consumer sweep over all field subsets / one concurrent history / one block of owner connections; distinct = case index (owner part: enumerated record shapes); non-trivial = every sequence contains at least one accepted write followed by a full-state comparison',
+        'assumptions': [A_RACE, A_HARNESS, 'porcupine v1.3.0'],
+        'quick': {'shards': 12, 'timeout': 900},
+        'thorough': {'shards': 16, 'timeout': 5400},
+    },
 }
 
 NOT_APPLICABLE = {p: 'check not built yet in this round (the design in DESIGN.md section 3 applies; runtime monitoring can decide it)'
